@@ -1,6 +1,6 @@
 SPECIFICATION Spec
 CONSTANTS
-  Lexemes = {"ident", "under", "underletter", "undermb", "mbident", "field", "dot", "int", "float", "signedint", "hex", "badnum", "imag", "string", "rawstring", "char", "openstring", "openraw", "openchar", "plus", "minus", "mul", "div", "mod", "eq", "neq", "lt", "le", "assign", "decl", "and", "or", "amp", "not", "pipe", "comma", "semi", "colon", "question", "lparen", "rparen", "lbrack", "rbrack", "space", "newline", "kwif", "kwend", "kwnil", "kwrange", "kwcontent", "symbol", "control", "badutf8", "nbsp", "true", "mbdigit", "mbspace", "ampfield"}
+  Lexemes = {"ident", "under", "underletter", "undermb", "mbident", "field", "dot", "int", "float", "signedint", "hex", "badnum", "imag", "string", "rawstring", "char", "openstring", "openraw", "openchar", "plus", "minus", "mul", "div", "mod", "eq", "neq", "lt", "le", "assign", "decl", "and", "or", "amp", "not", "pipe", "comma", "semi", "colon", "question", "lparen", "rparen", "lbrack", "rbrack", "space", "newline", "kwif", "kwend", "kwnil", "kwrange", "kwcontent", "symbol", "control", "badutf8", "nbsp", "true", "mbdigit", "mbspace", "ampfield", "bigint", "bigexp", "multichar"}
   Contexts = {"plain", "if", "block", "yield", "catch", "pipe", "index", "extends"}
   MaxLen = 2
   Emit = TRUE
